@@ -199,6 +199,9 @@ func runRecur(r *rec, g *rng, tier, what, replay, out string, extra map[string]i
 			b, _ := jsonMarshal(map[string]interface{}{"property": prop, "signature": sig, "what": what, "detail": detail})
 			mon.Write(append(b, '\n'))
 		}
+		hangCtx.Store("session", si)
+		hangCtx.Store("seed", base)
+		hangCtx.Store("tier", tier)
 		r.emit("reset", fmt.Sprintf("reset recurse session=%d", si), "ok")
 		s.opAdd(r, s.sentinel, 0x1f, false)
 		if wd, ok := s.wdOf(s.sentinel, false); ok {
